@@ -928,3 +928,84 @@ Qed.
 
 Lemma SimD_init : SimD hinit init.
 Proof. split; [exact Sim_init|]. intros _ k b _ Hb. simpl in Hb. discriminate. Qed.
+
+(* ================= 10. several files: the AN interface never touches the cached DFAN directory ================ *)
+Lemma add_core_dir : forall s ty r g f n s' id, add_core s ty r g f n = Some (s', id) -> l_dir s' = l_dir s.
+Proof. intros. unfold add_core in H. repeat dmatch H; inversion H; subst; reflexivity. Qed.
+Lemma load_tree_dir : forall ty tag els s s', load_tree ty tag els s = Some s' -> l_dir s' = l_dir s.
+Proof.
+  induction els as [|d r IH]; simpl; intros s s' H; [inversion H; reflexivity|].
+  destruct (add_core s ty (d_ref d) _ _ false) as [[s1 id]|] eqn:E; [|discriminate]. rewrite (IH _ _ H). eapply add_core_dir; eassumption.
+Qed.
+Lemma create_tree_dir : forall s ty s' n, ANIcreate_ann_tree s ty = (s', n) -> l_dir s' = l_dir s.
+Proof.
+  intros s ty s' n H. unfold ANIcreate_ann_tree in H. destruct (negb _); [inversion H; reflexivity|].
+  destruct (atype2tag ty); [|inversion H; reflexivity].
+  destruct (load_tree _ _ _ _) as [s1|] eqn:E; inversion H; subst; [|reflexivity]. simpl. rewrite (load_tree_dir _ _ _ _ _ E). reflexivity.
+Qed.
+Lemma addentry_dir : forall s ty r g f n s' id, ANIaddentry s ty r g f n = (s', id) -> l_dir s' = l_dir s.
+Proof.
+  intros s ty r g f n s' id H. unfold ANIaddentry in H.
+  set (s1 := if l_num s ty =? -1 then set_tree s ty (Some []) 0 else s) in *.
+  assert (D1 : l_dir s1 = l_dir s) by (unfold s1; destruct (_ =? -1); reflexivity).
+  destruct (atype2tag ty); [|inversion H; subst; assumption].
+  match type of H with context [add_core s1 ty r ?a ?b n] => destruct (add_core s1 ty r a b n) as [[s2 id2]|] eqn:E end; inversion H; subst; simpl; [|assumption].
+  rewrite (add_core_dir _ _ _ _ _ _ _ _ E). assumption.
+Qed.
+Lemma ANIcreate_dir : forall s g r ty s' id, ANIcreate s g r ty = (s', id) -> l_dir s' = l_dir s.
+Proof.
+  intros s g r ty s' id H. unfold ANIcreate in H. destruct (atype2tag ty); [|inversion H; reflexivity].
+  destruct (if l_num s ty =? -1 then ANIcreate_ann_tree s ty else (s, 0)) as [s1 n] eqn:E.
+  assert (D1 : l_dir s1 = l_dir s) by (destruct (_ =? -1); [eapply create_tree_dir; eassumption | inversion E; reflexivity]).
+  destruct (n =? FAILV); [inversion H; subst; assumption|].
+  match type of H with (if ?c then _ else _) = _ => destruct c end; [inversion H; subst; assumption|].
+  rewrite (addentry_dir _ _ _ _ _ _ _ _ H). assumption.
+Qed.
+Lemma writeann_dir : forall s id txt s' ok, ANIwriteann s id txt = (s', ok) -> l_dir s' = l_dir s.
+Proof.
+  intros. unfold ANIwriteann in H. repeat dmatch H; inversion H; subst; try reflexivity; simpl; destruct (n_new _); reflexivity.
+Qed.
+Lemma need_tree_dir : forall s ty s' r, need_tree s ty = (s', r) -> l_dir s' = l_dir s.
+Proof.
+  intros s ty s' r H. unfold need_tree in H. destruct (if l_num s ty =? -1 then ANIcreate_ann_tree s ty else (s, 0)) as [s1 n] eqn:E.
+  assert (D1 : l_dir s1 = l_dir s) by (destruct (_ =? -1); [eapply create_tree_dir; eassumption | inversion E; reflexivity]).
+  destruct (n =? FAILV); inversion H; subst; assumption.
+Qed.
+Lemma fileinfo_dir : forall s s' r, ANfileinfo s = (s', r) -> l_dir s' = l_dir s.
+Proof.
+  intros s s' r H. unfold ANfileinfo in H.
+  destruct (ANIcreate_ann_tree s AN_FILE_LABEL) as [s1 a] eqn:E1. pose proof (create_tree_dir _ _ _ _ E1).
+  destruct (a =? FAILV); [inversion H; subst; assumption|].
+  destruct (ANIcreate_ann_tree s1 AN_FILE_DESC) as [s2 b] eqn:E2. pose proof (create_tree_dir _ _ _ _ E2).
+  destruct (b =? FAILV); [inversion H; subst; congruence|].
+  destruct (ANIcreate_ann_tree s2 AN_DATA_LABEL) as [s3 c] eqn:E3. pose proof (create_tree_dir _ _ _ _ E3).
+  destruct (c =? FAILV); [inversion H; subst; congruence|].
+  destruct (ANIcreate_ann_tree s3 AN_DATA_DESC) as [s4 d] eqn:E4. pose proof (create_tree_dir _ _ _ _ E4).
+  destruct (d =? FAILV); inversion H; subst; congruence.
+Qed.
+
+Lemma an_dir_frame : forall h o h' mr, an_op o -> mstep h o = (h', mr) ->
+  l_dir (h_lib h') = l_dir (h_lib h) \/ (forall k, l_dir (h_lib h') k = None).
+Proof.
+  intros h o h' mr Hop H. destruct o; simpl in Hop; try contradiction; unfold mstep in H; cbv beta iota zeta in H.
+  - destruct (h_sess h); inversion H; subst; left; reflexivity.
+  - destruct (h_sess h); inversion H; subst; [right; intros k; reflexivity | left; reflexivity].
+  - destruct (negb (h_sess h)); [inversion H; subst; left; reflexivity|]. destruct (ANIcreate _ _ _ _) as [l1 id] eqn:E. inversion H; subst. left. simpl. eapply ANIcreate_dir; eassumption.
+  - destruct (negb (h_sess h)); [inversion H; subst; left; reflexivity|]. destruct (ANcreatef _ _) as [l1 id] eqn:E. inversion H; subst. left. simpl.
+    unfold ANcreatef in E. destruct (zassoc _ _); [eapply ANIcreate_dir; eassumption | inversion E; reflexivity].
+  - destruct (ANIwriteann _ _ _) as [l1 ok] eqn:E. inversion H; subst. left. simpl. eapply writeann_dir; eassumption.
+  - destruct (ANIreadann _ _ _); inversion H; subst; left; reflexivity.
+  - inversion H; subst; left; reflexivity.
+  - destruct (negb (h_sess h)); [inversion H; subst; left; reflexivity|]. destruct (ANselect _ _ _) as [l1 id] eqn:E. inversion H; subst. left. simpl.
+    unfold ANselect in E. destruct (need_tree _ _) as [s1 [t|]] eqn:En; pose proof (need_tree_dir _ _ _ _ En); repeat dmatch E; inversion E; subst; assumption.
+  - destruct (negb (h_sess h)); [inversion H; subst; left; reflexivity|]. destruct (ANfileinfo _) as [l1 [v|]] eqn:E; inversion H; subst; left; simpl; eapply fileinfo_dir; eassumption.
+  - destruct (negb (h_sess h)); [inversion H; subst; left; reflexivity|]. destruct (ANnumann _ _ _ _) as [l1 n] eqn:E. inversion H; subst. left. simpl.
+    unfold ANnumann, ANInumann in E. destruct (_ || _); [inversion E; reflexivity|]. destruct (need_tree _ _) as [s1 [t|]] eqn:En; pose proof (need_tree_dir _ _ _ _ En); inversion E; subst; assumption.
+  - destruct (negb (h_sess h)); [inversion H; subst; left; reflexivity|]. destruct (ANannlist _ _ _ _) as [l1 [ids|]] eqn:E; inversion H; subst; left; simpl;
+    unfold ANannlist, ANIannlist in E; (destruct (_ || _); [inversion E; reflexivity|]); destruct (need_tree _ _) as [s1 [t|]] eqn:En; pose proof (need_tree_dir _ _ _ _ En); inversion E; subst; assumption.
+  - destruct (negb (h_sess h)); [inversion H; subst; left; reflexivity|]. destruct (ANtagref2id _ _ _) as [l1 id] eqn:E. inversion H; subst. left. simpl.
+    unfold ANtagref2id in E. destruct (zassoc _ _); [|inversion E; reflexivity].
+    destruct (need_tree _ _) as [s1 [t|]] eqn:En; pose proof (need_tree_dir _ _ _ _ En); repeat dmatch E; inversion E; subst; assumption.
+  - destruct (ANid2tagref _ _) as [[g rf]|]; inversion H; subst; left; reflexivity.
+  - inversion H; subst; left; reflexivity.
+Qed.
